@@ -193,9 +193,11 @@ func decodeKeyCharByUnicodeRune(buf []byte, cursor int64) ([]byte, int64, error)
 	return []byte(string(r)), cursor + defaultOffset - 1, nil
 }
 
+// decodeKeyCharByEscapedChar decodes the escape whose character after the backslash is at cursor.
+// The returned cursor is the position of the last byte of the escape sequence
+// (the caller's loop advances past it).
 func decodeKeyCharByEscapedChar(buf []byte, cursor int64) ([]byte, int64, error) {
 	c := buf[cursor]
-	cursor++
 	switch c {
 	case '"':
 		return []byte{'"'}, cursor, nil
@@ -214,7 +216,7 @@ func decodeKeyCharByEscapedChar(buf []byte, cursor int64) ([]byte, int64, error)
 	case 't':
 		return []byte{'\t'}, cursor, nil
 	case 'u':
-		return decodeKeyCharByUnicodeRune(buf, cursor)
+		return decodeKeyCharByUnicodeRune(buf, cursor+1)
 	}
 	return nil, cursor, nil
 }
@@ -600,7 +602,7 @@ RETRY:
 		}
 		goto RETRY
 	}
-	s.cursor++
+	// s.cursor stays on the last byte of the escape sequence (the caller's loop advances past it)
 	switch c {
 	case '"':
 		return []byte{'"'}, nil
@@ -619,6 +621,7 @@ RETRY:
 	case 't':
 		return []byte{'\t'}, nil
 	case 'u':
+		s.cursor++
 		return decodeKeyCharByUnicodeRuneStream(s)
 	default:
 		return nil, errors.ErrUnexpectedEndOfJSON("struct field", s.totalOffset())
